@@ -451,7 +451,9 @@ Fixpoint compile (bs : list blk) (pos : nat) (nr : bool) (s : stmt) {struct s} :
       let coff := if hasc then pab + 1 - pos else 0 in
       let pf := pab + length ccatch in
       let fclr := match fbrk, lp with Some _, None => clr body_nr | _, _ => [] end in
-      let cf := if hasf then compile_ss bs' (pf + 1 + length fclr) (list_mode bs' false f) 0 f else [] in
+      (* since fix f0be104 (finding C08-N7): block.breaking is cleared before the finally block is compiled *)
+      let bsf := mkBlk BTry None 0 0 false None :: bs in
+      let cf := if hasf then compile_ss bsf (pf + 1 + length fclr) (list_mode bsf false f) 0 f else [] in
       let foff := if hasf then pf + 1 - pos else 0 in
       [ITry coff foff] ++ pre ++ cb ++ ccatch
         ++ (if hasf then [IEnterFinally] ++ fclr ++ cf ++ [ILeaveFinally] else [ILeaveTry])
